@@ -333,6 +333,24 @@ def gen_Statics():
     except (OSError, ValueError) as e:
         raise E(f'tools/statics_classified.json: {e}')
     cls = [(e['file'], e['symbol'], e['class']) for e in cj['objects']]
+    # fill-then-flag: for every reviewed `done` flag, the store of the flag must follow the last store to
+    # each object it guards, inside the one function that contains them
+    order = []
+    for e in cj['objects']:
+        if 'guards' not in e:
+            continue
+        text = strip_c(open(os.path.join(lib, e['file']), errors='replace').read())
+        sets = [m.start() for m in re.finditer(r'(?<![\w.>])' + re.escape(e['symbol']) + r'\s*=(?!=)\s*[^;]*;', text)
+                if not re.match(r'[^;]*\bstatic\b', text[text.rfind(';', 0, m.start()) + 1:m.start()])]
+        if not sets:
+            raise E(f"{e['file']}: no store to the flag {e['symbol']} found")
+        ok = True
+        for g in e['guards']:
+            gs = [m.start() for m in re.finditer(r'(?<![\w.>])' + re.escape(g) + r'\s*(?:\[[^\]]*\]\s*)?=(?!=)', text)]
+            if not gs:
+                raise E(f"{e['file']}: no store to {g} (guarded by {e['symbol']}) found")
+            ok = ok and max(gs) < min(sets)
+        order.append((e['file'], e['symbol'], ok))
     pwc = [(e['file'], e['function'], e['class']) for e in cj['process_wide']]
 
     def lst(rows, fmt):
@@ -356,6 +374,8 @@ def gen_Statics():
     body += 'def mutexFns : List (String × Bool × Bool × List String) := ' + lst(mfacts, lambda r: f'({lean_str(r[0])}, {lean_bool(r[1])}, {lean_bool(r[2])}, [{", ".join(lean_str(c) for c in r[3])}])') + '\n\n'
     body += '/-- tools/statics_classified.json: (file, symbol, class). -/\n'
     body += 'def classified : List (String × String × String) := ' + lst(cls, lambda r: f'({lean_str(r[0])}, {lean_str(r[1])}, {lean_str(r[2])})') + '\n\n'
+    body += '/-- (file, `done` flag, the flag is stored after the last store to everything it guards). -/\n'
+    body += 'def flagStoredLast : List (String × String × Bool) := ' + lst(order, lambda r: f'({lean_str(r[0])}, {lean_str(r[1])}, {lean_bool(r[2])})') + '\n\n'
     body += '/-- tools/statics_classified.json: (object file, libc function, class). -/\n'
     body += 'def processWideClassified : List (String × String × String) := ' + lst(pwc, lambda r: f'({lean_str(r[0])}, {lean_str(r[1])}, {lean_str(r[2])})') + '\n'
     write('Statics', body, f'readelf over .build/{FLAVOUR} objects, libarchive/*.[ch], tools/statics_classified.json')
